@@ -12,8 +12,30 @@ pub const NFUNCS_MAX: usize = 4;
 
 /// The ways control crosses a frame. Every conduit calls function `f` (one int argument, int
 /// result) one or more times and yields an int.
+/// Further native call paths with the shape "calls f(a), then f(a + 1), from inside a core
+/// library function" (helper name, body with `f` and `a`); the helper returns 0
+pub const NATIVE2: &[(&str, &str)] = &[
+    ("C_MAPSORT", "{p: a, q: a + 1}.sort(|k, v| f(v))"),
+    ("C_MAPEACH", "{p: a, q: a + 1}.each(|(k, v)| f(v)).count()"),
+    ("C_MAPKEEP", "{p: a, q: a + 1}.keep(|(k, v)| f(v) > -100000).count()"),
+    ("C_TUPSORT", "(a, a + 1).sort_copy(|x| f(x))"),
+    ("C_MINKEY", "(a, a + 1).min(|x| f(x))"),
+    ("C_MAXKEY", "(a, a + 1).max(|x| f(x))"),
+    ("C_MINMAXKEY", "(a, a + 1).min_max(|x| f(x))"),
+    ("C_FLATTEN", "((a, a + 1),).flatten().each(|x| f(x)).count()"),
+    ("C_COPYKEEP", "koto.copy((a..=a + 1).keep(|x| f(x) > -100000)).count()"),
+    ("C_COPYEACH", "koto.deep_copy((a..=a + 1).each(|x| f(x))).count()"),
+    ("C_TOMAP", "(a..=a + 1).each(|x| (x, f(x))).to_map()"),
+    ("C_TOSTRING", "(a..=a + 1).each(|x| '{f(x)}').to_string()"),
+    ("C_ONCE", "iterator.once(a).chain(iterator.once(a + 1)).each(|x| f(x)).count()"),
+    ("C_MAPGETOR", "(a..=a + 1).each(|x| {k: 1}.get('zz', f(x))).count()"),
+    ("C_LISTFILL", "[0, 0].fill(f(a) + f(a + 1))"),
+];
+
 #[derive(Clone, Copy, Debug, PartialEq, Eq, Hash)]
 pub enum Conduit {
+    /// see `NATIVE2`
+    Native2(u8),
     Plain,
     Piped,
     Method,
@@ -203,13 +225,44 @@ pub enum StrPart {
     Int(Expr),
 }
 
-/// (source text, first line of the runtime error)
-pub const NATIVE_OP_FAILS: &[(&str, &str)] = &[
-    ("[1, 'a'].min()", "unable to perform operation '<' with 'Number' and 'String'"),
-    ("[1, 'a'].max()", "unable to perform operation '<' with 'Number' and 'String'"),
-    ("[1, 'a'].sort()", "unable to perform operation '<' with 'String' and 'Number'"),
-    ("(1, 'a').sum()", "unable to perform operation '+' with 'Number' and 'String'"),
-    ("(2, 'a').product()", "unable to perform operation '*' with 'Number' and 'String'"),
+/// (source text, first line of the runtime error, further frames reported on the same line
+/// before the enclosing call sites)
+pub const NATIVE_OP_FAILS: &[(&str, &str, u8)] = &[
+    ("[1, 'a'].min()", "unable to perform operation '<' with 'Number' and 'String'", 0),
+    ("[1, 'a'].max()", "unable to perform operation '<' with 'Number' and 'String'", 0),
+    ("[1, 'a'].sort()", "unable to perform operation '<' with 'String' and 'Number'", 0),
+    ("(1, 'a').sum()", "unable to perform operation '+' with 'Number' and 'String'", 0),
+    ("(2, 'a').product()", "unable to perform operation '*' with 'Number' and 'String'", 0),
+    ("(1..3).keep(|x| 5).count()", "expected Bool from the predicate, found Number", 1),
+    ("koto.copy((1..3).keep(|x| 5)).count()", "expected Bool from the predicate, found Number", 1),
+    ("koto.deep_copy((1..3).keep(|x| 5)).count()", "expected Bool from the predicate, found Number", 1),
+];
+
+/// module files the engines place next to the script
+pub const MODULE_FILES: &[(&str, &str)] = &[
+    ("okmod.koto", "export x = 1\n"),
+    ("failtop.koto", "export y = 2\nthrow 'FT'\n"),
+];
+
+/// Tiny functions that catch an error themselves and use as few registers as possible (no
+/// calls, no temporaries besides what the try/catch itself needs): what the compiler reserves
+/// for the error path is all the frame has. (body lines, good arguments, result with the good
+/// arguments, bad arguments — the result with those is always -1)
+pub const TINY: &[(&[&str], &str, i64, &str)] = &[
+    (&["try", "  s = a + b", "catch _", "  s = -1", "s"], "1, 2", 3, "1, 'a'"),
+    (&["try", "  s = a + b", "catch e", "  s = -1", "s"], "1, 2", 3, "1, 'a'"),
+    (&["try", "  s = a + b", "catch _e", "  s = -1", "s"], "1, 2", 3, "1, 'a'"),
+    (&["s = try", "  a + b", "catch _", "  -1", "s"], "1, 2", 3, "1, 'a'"),
+    (&["try", "  return a + b", "catch _", "  return -1"], "1, 2", 3, "1, 'a'"),
+    (&["try", "  v = a[b]", "catch _", "  v = -1", "v"], "IDX, 0", 0, "IDX, 5"),
+    (&["try", "  v = a[b]", "catch e", "  v = -1", "v"], "IDX, 0", 0, "IDX, 5"),
+    (&["s = 0", "for i in 0..2", "  try", "    s = a + b", "  catch _", "    s = -1", "s"], "1, 2", 3, "1, 'a'"),
+    (&["try", "  s = a + b", "catch _", "  s = -1", "finally", "  t = 0", "s"], "1, 2", 3, "1, 'a'"),
+    (&["try", "  s = a + b", "catch {code}", "  s = -2", "catch _", "  s = -1", "s"], "1, 2", 3, "1, 'a'"),
+    (&["try", "  try", "    s = a + b", "  catch _", "    throw 'again'", "catch _", "  s = -1", "s"], "1, 2", 3, "1, 'a'"),
+    (&["try", "  s = -a", "catch _", "  s = -1", "s"], "-3, 0", 3, "'a', 0"),
+    (&["try", "  s = a.x", "catch _", "  s = -1", "s"], "{x: 3}, 0", 3, "5, 0"),
+    (&["try", "  s = size '{a + b}'", "catch _", "  s = -1", "s"], "10, 2", 2, "1, 'a'"),
 ];
 
 /// statements that always fail, for `Stmt::Storm`
@@ -234,6 +287,10 @@ pub enum ThrowKind {
     Typed(u8, Expr),
     /// `throw <int>`: any value can be thrown and is caught unchanged with its type
     Num(Expr),
+    /// a typed throw whose operand does not end on the `throw` line: layout 1 =
+    /// `throw MKERR<k>(` / `  <e>` / `)`, layout 2 = `throw` + an indented map block with
+    /// `code`, `@type` and `@display` entries
+    TypedLayout(u8, Expr, u8),
 }
 
 #[derive(Clone, Debug)]
@@ -312,6 +369,13 @@ pub enum Stmt {
     /// `xx = [1, 'a'].min()` and the like: a core library function fails inside an operator it
     /// runs through the VM (`run_binary_op`); see `NATIVE_OP_FAILS`
     NativeOpFail(u8),
+    /// main script only. ok: `import okmod` / `i<v> = okmod.x + 41`; otherwise a failing import
+    /// that is caught, followed by an export that is then read back as a non-local:
+    /// `try` / `import failtop` / `catch e` / `i<v> = 40` / `export EX<v> = i<v> + 1` /
+    /// `i<v> = (|| EX<v> + 1)()`. The modules are files next to the script (`MODULE_FILES`).
+    ImportStep(u8, bool),
+    /// `i<v> = TINY<k>(<good or bad arguments>)`: see `TINY`
+    Tiny(u8, u8, bool),
     /// `for rr in 0..<n>` / `try` / <a statement that always fails> / `catch e` / `i<v> += 1`:
     /// many errors caught in ONE frame (whatever a caught error leaves behind accumulates)
     Storm(u8, u8, u32),
@@ -475,7 +539,9 @@ impl<'a> Gen<'a> {
         }
         let func = *self.r.pick(&funcs);
         let mut conduit = *self.r.pick(&self.k.conduits);
-        if self.k.allow_chains && self.r.chance(1, 2) {
+        if self.k.allow_chains && self.r.chance(1, 5) {
+            conduit = Conduit::Native2(self.r.usize_below(NATIVE2.len()) as u8);
+        } else if self.k.allow_chains && self.r.chance(1, 2) {
             let ad = self.r.usize_below(CHAIN_ADAPTORS.len());
             let mut co = self.r.usize_below(CHAIN_CONSUMERS.len());
             if CHAIN_CONSUMERS[co].1 && !CHAIN_ADAPTORS[ad].1 {
@@ -659,10 +725,18 @@ impl<'a> Gen<'a> {
                     if self.k.allow_typed && self.r.chance(1, 5) {
                         Stmt::Throw(ThrowKind::Num(self.small_int_expr(c)))
                     } else if self.k.allow_typed && self.r.chance(1, 2) {
-                        Stmt::Throw(ThrowKind::Typed(
-                            self.r.range(1, 2) as u8,
-                            self.small_int_expr(c),
-                        ))
+                        if self.r.chance(1, 3) {
+                            Stmt::Throw(ThrowKind::TypedLayout(
+                                self.r.range(1, 2) as u8,
+                                self.small_int_expr(c),
+                                self.r.range(1, 2) as u8,
+                            ))
+                        } else {
+                            Stmt::Throw(ThrowKind::Typed(
+                                self.r.range(1, 2) as u8,
+                                self.small_int_expr(c),
+                            ))
+                        }
                     } else {
                         Stmt::Throw(ThrowKind::Str(self.r.range(1, 9) as u32))
                     }
@@ -676,7 +750,13 @@ impl<'a> Gen<'a> {
                 }
                 27 if self.r.chance(1, 3) => {
                     if self.r.chance(1, 3) || !nested_ok || c.in_finally {
-                        match self.r.below(4) {
+                        match self.r.below(if self.cur == usize::MAX { 8 } else { 6 }) {
+                            6 | 7 => Stmt::ImportStep(self.r.below(3) as u8, self.r.chance(1, 3)),
+                            4 | 5 => Stmt::Tiny(
+                                self.r.below(3) as u8,
+                                self.r.usize_below(TINY.len()) as u8,
+                                self.r.chance(2, 3),
+                            ),
                             0 => Stmt::MapIndexBadKey,
                             1 => Stmt::NativeOpFail(self.r.usize_below(NATIVE_OP_FAILS.len()) as u8),
                             _ => Stmt::Storm(
@@ -892,7 +972,9 @@ pub struct Printed {
     pub tick_line: Vec<u32>,
     /// 1-based source line of each call site (indexed by call site id)
     pub call_line: Vec<u32>,
-    /// 1-based line of each throw statement, in print order (mark id of preceding...) unused
+    /// first line of each printed statement, by the statement's address in the printed
+    /// `Program` (0 / absent = unknown, e.g. when the model runs on a clone)
+    pub stmt_line: std::collections::HashMap<usize, u32>,
     pub lines: u32,
 }
 
@@ -915,6 +997,7 @@ struct Printer {
     lambda_call_line: std::collections::BTreeMap<u32, u32>,
     /// adaptor chains used by the program: their helper functions are emitted on demand
     chains: std::collections::BTreeSet<(u8, u8)>,
+    stmt_line: std::collections::HashMap<usize, u32>,
     out: Vec<String>,
     tick_line: Vec<u32>,
     call_line: Vec<u32>,
@@ -1050,6 +1133,7 @@ impl Printer {
                         self.chains.insert((ad, co));
                         format!("C_CH{ad}_{co}({f}, {a})")
                     }
+                    Conduit::Native2(i) => format!("{}({f}, {a})", NATIVE2[i as usize].0),
                 }
             }
         }
@@ -1089,6 +1173,9 @@ impl Printer {
 
     fn stmt(&mut self, s: &Stmt, indent: usize) {
         self.noise(indent);
+        // the model finds the line of a statement through the statement's address (printer and
+        // model walk the same `Program` value)
+        self.stmt_line.insert(s as *const Stmt as usize, self.cur_line());
         match s {
             Stmt::Mark(n) => self.line(indent, &format!("mark({n})")),
             Stmt::Assign(v, e) => {
@@ -1174,6 +1261,20 @@ impl Printer {
                 let e = self.expr(e);
                 self.line(indent, &format!("throw {e}"));
             }
+            Stmt::Throw(ThrowKind::TypedLayout(k, e, layout)) => {
+                if *layout == 1 {
+                    self.line(indent, &format!("throw MKERR{k}("));
+                    let e = self.expr(e);
+                    self.line(indent + 1, &e);
+                    self.line(indent, ")");
+                } else {
+                    self.line(indent, "throw");
+                    let e = self.expr(e);
+                    self.line(indent + 1, &format!("code: {e}"));
+                    self.line(indent + 1, &format!("@type: 'T{k}'"));
+                    self.line(indent + 1, &format!("@display: || 'T{k}({{self.code}})'"));
+                }
+            }
             Stmt::Try(t) => {
                 match (&t.tuple_prefix, t.result) {
                     (Some(pre), Some(_)) => {
@@ -1216,6 +1317,23 @@ impl Printer {
             Stmt::Dump(n) => self.line(indent, &format!("dump({n}, i0, i1, i2, s0, l0, m0, GL)")),
             Stmt::MapIndexBadKey => self.line(indent, "m0[0] = (l0, 1)"),
             Stmt::NativeOpFail(k) => self.line(indent, &format!("xx = {}", NATIVE_OP_FAILS[*k as usize].0)),
+            Stmt::ImportStep(v, ok) => {
+                if *ok {
+                    self.line(indent, "import okmod");
+                    self.line(indent, &format!("i{v} = okmod.x + 41"));
+                } else {
+                    self.line(indent, "try");
+                    self.line(indent + 1, "import failtop");
+                    self.line(indent, "catch e");
+                    self.line(indent + 1, &format!("i{v} = 40"));
+                    self.line(indent, &format!("export EX{v} = i{v} + 1"));
+                    self.line(indent, &format!("i{v} = (|| EX{v} + 1)()"));
+                }
+            }
+            Stmt::Tiny(v, k, bad) => {
+                let t = &TINY[*k as usize];
+                self.line(indent, &format!("i{v} = TINY{k}({})", if *bad { t.3 } else { t.1 }));
+            }
             Stmt::Storm(v, k, n) => {
                 self.line(indent, &format!("for rr in 0..{n}"));
                 self.line(indent + 1, "try");
@@ -1308,6 +1426,7 @@ impl Printer {
 pub fn print(p: &Program, opts: &PrintOpts) -> Printed {
     let mut pr = Printer {
         lambda_call_line: Default::default(),
+        stmt_line: Default::default(),
         chains: Default::default(),
         out: vec![],
         tick_line: vec![0; p.n_ticks as usize + 1],
@@ -1345,6 +1464,17 @@ pub fn print(p: &Program, opts: &PrintOpts) -> Printed {
     pr.line(0, "export C_RETAIN = |f, a| size [a, a + 1].retain(|x| f(x) > -100000)");
     pr.line(0, "export C_SORTKEY = |f, a| size [a, a + 1].sort(|x| f(x))");
     pr.line(0, "export C_MAPUPDATE = |f, a| {k: a}.update('k', |x| f(x))");
+    for (k, t) in TINY.iter().enumerate() {
+        pr.line(0, &format!("export TINY{k} = |a, b|"));
+        for l in t.0 {
+            pr.line(1, l);
+        }
+    }
+    for (name, body) in NATIVE2 {
+        pr.line(0, &format!("export {name} = |f, a|"));
+        pr.line(1, &format!("zz = {body}"));
+        pr.line(1, "return 0");
+    }
     for k in 1..=2 {
         pr.line(0, &format!("export METAT{k} ="));
         pr.line(1, &format!("@type: 'T{k}'"));
@@ -1486,6 +1616,7 @@ pub fn print(p: &Program, opts: &PrintOpts) -> Printed {
             .iter_mut()
             .chain(pr.call_line.iter_mut())
             .chain(pr.lambda_call_line.values_mut())
+            .chain(pr.stmt_line.values_mut())
         {
             if *l > at {
                 *l += shift;
@@ -1505,6 +1636,7 @@ pub fn print(p: &Program, opts: &PrintOpts) -> Printed {
         source: pr.out.join("\n") + "\n",
         tick_line: pr.tick_line,
         call_line: pr.call_line,
+        stmt_line: pr.stmt_line,
         lines,
     }
 }
